@@ -237,9 +237,15 @@ def main(tier, seed, replay=None):
             scs.append({'strategy': strat, 'skeleton': h, 'rounds': 28})
     scs += directed(tier)
     scs += [gen_random(rnd) for _ in range(60 if tier == 'quick' else 1500)]
-    traces = run_scenarios(scs)
-    judge(v, traces, scs)
-    compare_outcomes(v, [(scs[i], outs, traces[i]) for i, outs in skel_idx])
+    skel = dict(skel_idx)
+    compared = 0
+    for lo in range(0, len(scs), 400):          # chunk by chunk: bounded memory in thorough runs
+        part = scs[lo:lo + 400]
+        traces = run_scenarios(part)
+        judge(v, traces, part)
+        compare_outcomes(v, [(part[i], skel[lo + i], traces[i]) for i in range(len(part)) if lo + i in skel])
+        compared += v.cov.get('skeletons_compared', 0)
+    v.cov['skeletons_compared'] = compared
     v.cov['distinct_nontrivial'] = len({json.dumps(s, sort_keys=True) for s in scs})
     v.sample({'scenario': scs[len(scs) // 2]})
     v.cov['rule'] = ('one trace per scenario (design-model skeleton, directed or seeded random script), distinct by '
